@@ -10,7 +10,7 @@
    Keys are built the way the code builds them: [ctx ++ "." ++ name] on real strings (switch d17 on); the
    conformant alternative keeps the pair (ctx, name).  Injectivity of the concatenation is therefore a proof
    obligation (it fails: D17), not an assumption. *)
-From PV Require Import Common.Util.
+From PV Require Import Common.Util Gen.UniqueConsts.
 From Coq Require Import String Ascii.
 Import List ListNotations.
 Local Open Scope list_scope.
@@ -20,7 +20,8 @@ Definition task := N.
 Definition key := (string * string)%type.
 
 Definition key_eqb (a b : key) : bool := String.eqb (fst a) (fst b) && String.eqb (snd a) (snd b).
-Definition dot : string := String "."%char EmptyString.
+(* the separator is re-read from function.py on every run (Gen/UniqueConsts.v) *)
+Definition dot : string := String key_sep_char EmptyString.
 Definition cat (a b : string) : string := String.append a b.
 
 (* ---------- deviation switches (on = what the code does today) ---------- *)
@@ -34,6 +35,13 @@ Definition as_is : deviations := {| d17_concat_keys := true; d130_dispatch_prech
 
 Definition key_of (cfg : deviations) (ctx name : string) : key :=
   if d17_concat_keys cfg then (EmptyString, cat ctx (cat dot name)) else (ctx, name).
+
+(* names without the separator: the hypothesis under which concatenated keys are injective *)
+Fixpoint dot_free (s : string) : bool :=
+  match s with
+  | EmptyString => true
+  | String c r => negb (Ascii.eqb c key_sep_char) && dot_free r
+  end.
 
 (* ---------- small finite maps as association lists ---------- *)
 Definition memN (t : task) (l : list task) : bool := existsb (N.eqb t) l.
@@ -206,14 +214,14 @@ Definition view_entry (cfg : deviations) (ctx : string) (p : key * task) : optio
     else None
   else if String.eqb c ctx then Some (k, t) else None.
 
-Fixpoint filter_map {A B} (f : A -> option B) (l : list A) : list B :=
+Fixpoint filter_opt {A B} (f : A -> option B) (l : list A) : list B :=
   match l with
   | [] => []
-  | x :: r => match f x with Some y => y :: filter_map f r | None => filter_map f r end
+  | x :: r => match f x with Some y => y :: filter_opt f r | None => filter_opt f r end
   end.
 
 Definition view (cfg : deviations) (ctx : string) (m : list (key * task)) : list (string * task) :=
-  filter_map (view_entry cfg ctx) m.
+  filter_opt (view_entry cfg ctx) m.
 
 (* task.name2id(name) *)
 Definition owner (cfg : deviations) (s : ustate) (ctx name : string) : option task :=
